@@ -1,13 +1,26 @@
 """C02 — see DESIGN.md section 4 ("the repository model") and lean/XvcRepo/XvcRepo/Props/C02.lean.
-Proof: Lean theorems about the executable repository model.  Tie: the model driver is compared with the rebuilt xvc
-binary after every command of generated histories.  Oracle: model-independent, lib/repo_check.py."""
+Proof: Lean theorems about the executable repository model + the documented address format over constants that
+translator/extract_addr.py REGENERATES from the Rust source on every run (Gen/Addr.lean).  Tie: the model driver is
+compared with the rebuilt xvc binary after every command of generated histories.  Oracle: lib/repo_check.py O1."""
+import os, sys
 import repo_check as rc
+from common import VERIF, REPO
+sys.path.insert(0, os.path.join(VERIF, 'translator'))
+import extract_addr
 
 ORACLES = [rc.o1_content_addressed]
 RESTORE = None
 
 
 def run(chk):
+    try:
+        ex = extract_addr.generate(REPO, os.path.join(VERIF, 'lean', 'XvcRepo', 'XvcRepo', 'Gen'))
+        chk.extra['translator_extract'] = ex
+    except (extract_addr.ExtractError, OSError) as e:
+        chk.proof['broken'].append({'stage': 'translator', 'package': 'XvcRepo', 'theorems': ['C02_addr_format_documented'],
+                                    'errors': [f'translator/extract_addr.py: {e}'],
+                                    'note': 'the Rust source no longer has the shape the address-format model transcribes; Gen/Addr.lean left as it was'})
+    chk.trusted_base.append('translator/extract_addr.py (anchored extraction of the strum prefixes, DIGEST_LENGTH, the two split_at of cache_dir and the file name format; fails loudly)')
     return rc.run_property(chk, 'C02', ORACLES, restore=RESTORE)
 
 
